@@ -120,6 +120,10 @@ func verifYield() {
 	verifRng ^= verifRng << 17
 	r := verifRng
 	verifRngMu.Unlock()
+	if r>>24%128 == 0 { // rarely: longer than the harnesses' one second timers (an idle timer firing during a request)
+		time.Sleep(time.Duration(1100+r>>12%200) * time.Millisecond)
+		return
+	}
 	if r>>40%16 == 0 { // heavy tail: now and then a goroutine stalls long enough for others to run to completion
 		time.Sleep(time.Duration(5+r>>12%25) * time.Millisecond)
 		return
